@@ -297,6 +297,7 @@ func runC04(c *core.Ctx) {
 	c.Rule("C04.shortcircuit", "(f): AND returns false without evaluating the right operand when the left is false, OR returns true when the left is true; otherwise the right operand decides")
 	c.Rule("C04.respec", "A1: EvalBinaryNode.eval: a node without an evaluation function refreshes the operand types from the current scope and looks the function up again before reporting a mismatch (the answer for a point never depends on earlier points' types); a type-guard error rewrites exactly the side(s) named by the error with ActualType, re-looks-up and retries (whatever the lookup gave) unless the retry budget is spent, in which case the guard error is returned; any other outcome is returned unchanged")
 	c.Rule("C04.arity", "A1: EvalFunctionNode.Type rejects a call as having too many arguments exactly when the number of arguments exceeds the size of the signature domain (a call with exactly that many is type-checked against the signatures); every argument's type is written at its own index")
+	c.Rule("C04.fresh", "A1: F112: EvalBinaryNode.eval hands a node with a dynamic operand to evaluateDynamicNode (operand types from the current scope, before anything is evaluated) and only a node with constant operand types straight to the retry worker: the types a node was specialised for by earlier points are never what a point is evaluated with, and no stateful operand is evaluated twice to find out")
 	c.Rule("C04.dynamic", "A2: evaluateDynamicNode stores both operand types obtained from Type() before lookupEvaluationFn, and looks up before eval; a Type() error is returned with the right side flag")
 	c.Rule("C04.lookup", "A3: lookupEvaluationFn indexes evaluationFuncs with operationKey{operator: n.operator, leftType: n.leftType, rightType: n.rightType}; Type() of a dynamic node looks binaryConstantTypes up with the same three fields and never stores constReturnType")
 	c.Rule("C04.sigcheck", "A2: in EvalPredicate and expression.Eval the Type(scope) call precedes every Eval* call and its error is returned")
@@ -468,6 +469,7 @@ func runC04(c *core.Ctx) {
 	}
 
 	c04Respec(c, pkg)
+	c04ProbeRules(c, pkg)
 	c04Arity(c, pkg)
 	c04SigCheck(c)
 	c04BoolSpec(c, pkg)
@@ -571,16 +573,35 @@ func c04Respec(c *core.Ctx, pkg *packages.Package) {
 		return ""
 	}
 	if fn := c.Need("C04.respec", "tick/stateful", "EvalBinaryNode", "eval"); fn != nil {
-		// eval may be a one-line entry that hands over to the method doing the work (with a retry counter): analyse that one
-		if body := an.Effective(fn.Decl.Body.List); len(body) == 1 {
-			if ret, ok := body[0].(*ast.ReturnStmt); ok && len(ret.Results) == 1 {
-				if call, ok := ret.Results[0].(*ast.CallExpr); ok {
-					if callee := core.Callee(info, call); callee != nil && core.RecvTypeName(callee) == "EvalBinaryNode" {
-						if w := c.Need("C04.respec", "tick/stateful", "EvalBinaryNode", callee.Name()); w != nil {
-							fn = w
-						}
-					}
+		// eval may be an entry that hands over to the method doing the work (the one with a retry counter): analyse that one.
+		// F112: the entry itself decides, for a node with a dynamic operand, to take the operand types from the scope first.
+		entry := fn
+		var worker *types.Func
+		ast.Inspect(fn.Decl.Body, func(n ast.Node) bool {
+			ret, ok := n.(*ast.ReturnStmt)
+			if !ok || len(ret.Results) != 1 {
+				return true
+			}
+			call, ok := ret.Results[0].(*ast.CallExpr)
+			if !ok {
+				return true
+			}
+			callee := core.Callee(info, call)
+			if callee == nil || core.RecvTypeName(callee) != "EvalBinaryNode" {
+				return true
+			}
+			sig := callee.Type().(*types.Signature)
+			for i := 0; i < sig.Params().Len(); i++ {
+				if b, ok := sig.Params().At(i).Type().Underlying().(*types.Basic); ok && b.Info()&types.IsInteger != 0 {
+					worker = callee
 				}
+			}
+			return true
+		})
+		if worker != nil {
+			if w := c.Need("C04.respec", "tick/stateful", "EvalBinaryNode", worker.Name()); w != nil {
+				fn = w
+				c04Fresh(c, pkg, entry, worker)
 			}
 		}
 		self, _ := info.Defs[fn.Decl.Name].(*types.Func)
@@ -740,6 +761,9 @@ func c04Respec(c *core.Ctx, pkg *packages.Package) {
 				if core.RecvTypeName(callee) == "EvalBinaryNode" && (callee.Name() == "eval" || callee.Name() == "lookupEvaluationFn") {
 					return callee.Name()
 				}
+				if core.RecvTypeName(callee) == "EvalBinaryNode" && c04IsRetryWorker(callee) {
+					return "worker"
+				}
 				return ""
 			},
 			Classify: func(a an.Atom) (string, bool) {
@@ -774,6 +798,13 @@ func c04Respec(c *core.Ctx, pkg *packages.Package) {
 						s = append(s, e.Name+"="+v)
 					} else if e.Name == "eval" {
 						s = append(s, "eval")
+					} else if e.Name == "worker" {
+						// the retry worker with a fresh budget
+						if len(e.Args) > 0 && e.Args[len(e.Args)-1] == "0" {
+							s = append(s, "worker(0)")
+						} else {
+							s = append(s, "worker(?)")
+						}
 					}
 				}
 				if len(p.Rets) == 2 {
@@ -793,7 +824,13 @@ func c04Respec(c *core.Ctx, pkg *packages.Package) {
 				if a["errR"] {
 					return "ret:IsRight"
 				}
-				return "leftType=Type(L),rightType=Type(R),evaluationFn=lookup,eval | rightType=Type(R),leftType=Type(L),evaluationFn=lookup,eval"
+				// the evaluation step: eval, or — when eval itself hands dynamic nodes to this function — the retry worker with
+				// a fresh budget (calling eval would never return)
+				step := "eval"
+				if c04EvalDelegates(c, pkg) {
+					step = "worker(0)"
+				}
+				return "leftType=Type(L),rightType=Type(R),evaluationFn=lookup," + step + " | rightType=Type(R),leftType=Type(L),evaluationFn=lookup," + step
 			}})
 	}
 	// C04.lookup
@@ -1167,4 +1204,87 @@ func c04RefGuard(c *core.Ctx, pkg *packages.Package) {
 		}
 	}
 	c.Floor("C04.refguard", "Eval<Kind> methods of EvalReferenceNode with a success return", n, 7)
+}
+
+// c04IsRetryWorker: a method of EvalBinaryNode with an integer parameter (the retry counter).
+func c04IsRetryWorker(f *types.Func) bool {
+	sig, ok := f.Type().(*types.Signature)
+	if !ok {
+		return false
+	}
+	for i := 0; i < sig.Params().Len(); i++ {
+		if b, ok := sig.Params().At(i).Type().Underlying().(*types.Basic); ok && b.Info()&types.IsInteger != 0 {
+			return true
+		}
+	}
+	return false
+}
+
+// c04EvalDelegates: EvalBinaryNode.eval calls evaluateDynamicNode.
+func c04EvalDelegates(c *core.Ctx, sp *packages.Package) bool {
+	fn := c.P.FindFunc("tick/stateful", "EvalBinaryNode", "eval")
+	if fn == nil {
+		return false
+	}
+	found := false
+	ast.Inspect(fn.Decl.Body, func(n ast.Node) bool {
+		if call, ok := n.(*ast.CallExpr); ok {
+			if cal := core.Callee(sp.TypesInfo, call); cal != nil && cal.Name() == "evaluateDynamicNode" {
+				found = true
+			}
+		}
+		return true
+	})
+	return found
+}
+
+// c04Fresh: the entry's decision table.
+func c04Fresh(c *core.Ctx, sp *packages.Package, entry *core.Func, worker *types.Func) {
+	info := sp.TypesInfo
+	eng := &an.Engine{Prog: c.P,
+		TrackCall: func(call *ast.CallExpr, callee *types.Func) string {
+			if callee == nil || core.RecvTypeName(callee) != "EvalBinaryNode" {
+				return ""
+			}
+			switch {
+			case callee.Name() == "evaluateDynamicNode":
+				return "dynamic"
+			case callee == worker:
+				return "worker"
+			}
+			return ""
+		},
+		Classify: func(a an.Atom) (string, bool) {
+			if a.Call != nil && a.Call.Name() == "IsDynamic" {
+				if strings.Contains(a.Key, ".leftEvaluator.") {
+					return "dynL", false
+				}
+				if strings.Contains(a.Key, ".rightEvaluator.") {
+					return "dynR", false
+				}
+			}
+			return "", false
+		}}
+	paths, err := eng.Run(entry)
+	if err != nil {
+		c.Undecided("C04.fresh", "EvalBinaryNode.eval", entry.Decl.Pos(), "%v", err)
+		return
+	}
+	_ = info
+	an.CheckTable(c, "C04.fresh", "EvalBinaryNode.eval", paths, an.Table{Atoms: []string{"dynL", "dynR"},
+		Outcome: func(p *an.Path) string {
+			var s []string
+			for _, e := range p.Events {
+				if e.Name == "dynamic" || e.Name == "worker" {
+					s = append(s, e.Name)
+				}
+			}
+			return strings.Join(s, ",")
+		},
+		Expect: func(a map[string]bool) string {
+			if a["dynL"] || a["dynR"] {
+				return "dynamic"
+			}
+			return "worker"
+		}})
 }
